@@ -1054,6 +1054,130 @@ func run(args []string) error {
 		hist.Add(fmt.Sprintf("concurrent:%d calls x %d goroutines x %d rounds:mismatches=%d", len(tasks), workers, roundsC, bad))
 	}
 
+	// ---- scripted scalar boundaries: every scalar the API takes (r, s, message, secret key, nonce) at
+	//      0, 1, 2, n-1, n, n+1, p-1, p, p+1, 2^255-1, 2^255, halfOrder, halfOrder+1, 2^256-1 in each position of
+	//      RecoverPublicKey / Signature.Verify / VerifySignature / Signature.Sign / key validation / ECDH,
+	//      with the other components valid
+	{
+		bounds := []*big.Int{bi(0), bi(1), bi(2), add(bigN, -1), bigN, add(bigN, 1), add(bigP, -1), bigP, add(bigP, 1),
+			add(big2_255, -1), big2_255, bigHalf, add(bigHalf, 1), add(big2_256, -1)}
+		rounds := 1 + n/120
+		for j := 0; j < rounds; j++ {
+			d, k := g.validKey(), g.validKey()
+			m := g.rand256()
+			_, sg, _ := lowSign(d, m, k)
+			if sg.r == nil {
+				continue
+			}
+			pk := pubOf(d)
+			recoverCase := func(r, sv, mm *big.Int, recid int, kind string) {
+				sb := sigT{r, sv, recid}.bytes()
+				msg := b32(mm)
+				var rec []byte
+				var code int
+				obs := ""
+				if Guard(func() { rec, code = secp.RecoverPublicKey(sb[:64], msg, recid) }) {
+					obs = "panic"
+				} else if rec != nil {
+					obs = fmt.Sprintf("%d %s", code, hx(rec))
+				} else {
+					obs = fmt.Sprintf("%d nil", code)
+				}
+				emit("scal", "recover", []string{hx(msg), hx(sb)}, obs, map[string]interface{}{"kind": kind}, true)
+				var v int
+				if Guard(func() { v = secp256k1.VerifySignature(msg, sb, pk) }) {
+					obs = "panic"
+				} else {
+					obs = fmt.Sprint(v)
+				}
+				emit("scal", "vsig", []string{hx(msg), hx(sb), hx(pk)}, obs, map[string]interface{}{"kind": kind}, true)
+				var cpk cipher.PubKey
+				copy(cpk[:], pk)
+				var csig cipher.Sig
+				copy(csig[:], sb)
+				var h cipher.SHA256
+				copy(h[:], msg)
+				var err error
+				if Guard(func() { err = cipher.VerifyPubKeySignedHash(cpk, csig, h) }) {
+					obs = "panic"
+				} else {
+					obs = errName(err)
+				}
+				emit("scal", "vpsh", []string{hx(pk), hx(sb), hx(msg)}, obs, map[string]interface{}{"kind": kind}, true)
+			}
+			verifyCase := func(r, sv, mm *big.Int, kind string) {
+				var xy secp.XY
+				if err := xy.ParsePubkey(pk); err != nil {
+					return
+				}
+				var sig secp.Signature
+				sig.R.Set(r)
+				sig.S.Set(sv)
+				var num secp.Number
+				num.Set(mm)
+				var ok bool
+				obs := "0"
+				if Guard(func() { ok = sig.Verify(&xy, &num) }) {
+					obs = "panic"
+				} else if ok {
+					obs = "1"
+				}
+				emit("scal", "verify", []string{hx(pk), hn(mm), hn(r), hn(sv)}, obs, map[string]interface{}{"kind": kind}, true)
+			}
+			for _, b := range bounds {
+				for recid := 0; recid < 4; recid++ {
+					if recid >= 2 && j > 0 {
+						continue
+					}
+					recoverCase(sg.r, b, m, recid, "s="+hn(b))
+					recoverCase(b, sg.s, m, recid, "r="+hn(b))
+				}
+				recoverCase(sg.r, sg.s, b, sg.recid, "msg="+hn(b))
+				verifyCase(sg.r, b, m, "s="+hn(b))
+				verifyCase(b, sg.s, m, "r="+hn(b))
+				verifyCase(sg.r, sg.s, b, "msg="+hn(b))
+				// sign with boundary key / message / nonce (nonce = 0 mod n is outside Sign's contract)
+				for pos := 0; pos < 3; pos++ {
+					kk, mm, nn := d, m, k
+					switch pos {
+					case 0:
+						kk = b
+					case 1:
+						mm = b
+					case 2:
+						nn = b
+						if new(big.Int).Mod(b, bigN).Sign() == 0 {
+							continue
+						}
+					}
+					ret, s2, pan := lowSign(kk, mm, nn)
+					obs := "0"
+					if pan {
+						obs = "panic"
+					} else if ret == 1 {
+						obs = fmt.Sprintf("1 %s %s %x", hn(s2.r), hn(s2.s), s2.recid)
+					}
+					emit("scal", "sign", []string{hn(kk), hn(mm), hn(nn)}, obs, map[string]interface{}{"kind": fmt.Sprintf("sign pos %d = %s", pos, hn(b))}, true)
+				}
+				// key validation and ECDH with a boundary secret key
+				code := secp.SeckeyIsValid(b32(b))
+				_, err := cipher.NewSecKey(b32(b))
+				emit("scal", "seckey", []string{hn(b)}, fmt.Sprintf("%d %s", code, errName(err)), map[string]interface{}{"kind": "seckey boundary"}, true)
+				var out []byte
+				obs := ""
+				if Guard(func() { out = secp256k1.ECDH(pk, b32(b)) }) {
+					obs = "panic"
+				} else if out == nil {
+					obs = "nil"
+				} else {
+					obs = hx(out)
+				}
+				emit("scal", "ecdh", []string{hx(pk), hn(b)}, obs, map[string]interface{}{"kind": "ecdh boundary key"}, true)
+			}
+		}
+		hist.Add(fmt.Sprintf("scalar-boundaries=%d", len(caseJSON["scal"])))
+	}
+
 	// ---- chosen raw s: for key d and nonce k the message m = s0*k - r*d makes the un-normalised s equal to a
 	//      chosen s0, placed on the thresholds of every comparison in Sign / Verify / Recover
 	//      ((n-1)/2, (n+1)/2, 2^255-1, 2^255, n-2^255, n-1, 1 and inside the window ((n-1)/2, 2^255))
